@@ -1,7 +1,12 @@
 package props
 
 import (
+	"fmt"
+
+	"github.com/ProtonMail/gluon/imap"
+
 	"verifharness/core"
+	"verifharness/model"
 	"verifharness/world"
 )
 
@@ -30,6 +35,30 @@ func (C03) Generate(r *core.Rand, tier string, idx int) *core.Scenario {
 	if r.P(1, 8) {
 		sc.Cfg["appdel"] = 1 // allow APPEND with \Deleted in its flag list
 	}
+	if idx%20 == 7 {
+		// bulk run: a mailbox filled through one connector batch with a size on either side
+		// of the index's statement-batching limit (db.ChunkLimit = 1000, some statements
+		// batch at 500), then whole-mailbox commands
+		sc.Cfg["bulk"] = []int{499, 500, 501, 999, 1000, 1001, 1999, 2000, 2001, 2500}[r.Intn(10)]
+		sc.Cfg["nsess"], sc.Cfg["nbox"] = 1, 3
+		sc.Actions = append(sc.Actions, core.Action{K: "select", A: []int{1, 0}})
+		ops := []core.Action{
+			{K: "store", A: []int{2, 0, 0, 1, 1 << r.Intn(4), 0, r.Intn(2), 1}},            // +FLAGS one flag
+			{K: "store", A: []int{2, 0, 0, 2, 1 << r.Intn(4), 0, r.Intn(2), 1}},            // -FLAGS
+			{K: "store", A: []int{2, 0, 0, 0, 1 + r.Intn(15), 0, r.Intn(2), 1}},            // FLAGS set
+			{K: "store", A: []int{2, 0, 0, 1, 1<<5 | 1<<r.Intn(4), 0, r.Intn(2), 1}},       // +FLAGS keyword and system flag
+			{K: "copy", A: []int{2, 0, 0, 2, r.Intn(2)}},
+			{K: "move", A: []int{2, 0, 0, 2, r.Intn(2)}},
+			{K: "store", A: []int{4, 500 + r.Intn(3), 0, 1, 1 << 4, 0, r.Intn(2), 1}},      // \Deleted on k:*
+			{K: "expunge"},
+			{K: "fetch", A: []int{2, 0, 0, 1}},
+		}
+		for i := 0; i < 6; i++ {
+			a := ops[r.Intn(len(ops))]
+			sc.Actions = append(sc.Actions, a)
+		}
+		return sc
+	}
 	n := r.Range(15, 45)
 	//                 append store expunge uidexp copy move fetch select close noop recent unselect
 	weights := []int{10, 10, 4, 2, 6, 5, 3, 4, 1, 1, 1, 1}
@@ -54,6 +83,12 @@ func (C03) Execute(sc *core.Scenario, keepLog bool) *core.Result {
 		if e.Failed() {
 			return
 		}
+		if n := sc.C("bulk"); n > 0 {
+			if !c03Fill(e, m, "box1", n) {
+				return
+			}
+			m.CheckEach = true
+		}
 		for i, a := range sc.Actions {
 			e.Step = i + 1
 			m.Exec(a)
@@ -64,4 +99,43 @@ func (C03) Execute(sc *core.Scenario, keepLog bool) *core.Result {
 		e.St.Nontrivial = m.OKs >= 3
 		e.CheckModel("content-final", true, true)
 	})
+}
+
+// c03Fill puts n tiny messages into a mailbox through one connector batch.
+func c03Fill(e *Env, m *Mail, box string, n int) bool {
+	u := e.W.Users[0]
+	var rid imap.MailboxID
+	for id, nm := range u.Conn.MboxNames {
+		if len(nm) == 1 && nm[0] == box {
+			rid = id
+		}
+	}
+	if rid == "" {
+		e.Infra = fmt.Errorf("no remote id for %s", box)
+		return false
+	}
+	batch := make([]*imap.MessageCreated, 0, n)
+	b := e.R.Boxes[box]
+	for i := 0; i < n; i++ {
+		e.nextMark++
+		lit := []byte(fmt.Sprintf("Date: 1 Jan 2020 00:00:00 +0000\r\nFrom: bulk@example.com\r\nSubject: bulk <%d>\r\nX-Sim-Marker: <%d>\r\n\r\nb\r\n", e.nextMark, e.nextMark))
+		parsed, err := imap.NewParsedMessage(lit)
+		if err != nil {
+			e.Infra = err
+			return false
+		}
+		id := u.Conn.NewMessageID()
+		batch = append(batch, &imap.MessageCreated{Message: imap.Message{ID: id, Flags: imap.NewFlagSet(), Date: world.SimStart}, Literal: lit, MailboxIDs: []imap.MailboxID{rid}, ParsedMessage: parsed})
+		o, _ := model.NewObj(e.nextMark, lit, nil)
+		o.Remote = string(id)
+		b.Add(o, false)
+	}
+	r := e.W.Submit(u, imap.NewMessagesCreated(false, batch...))
+	if !r.Done || r.Err != nil {
+		e.Fail("bulk-fill", "MessagesCreated of %d messages: done=%v err=%v", n, r.Done, r.Err)
+		return false
+	}
+	e.St.Probes["bulk_runs"]++
+	e.St.Probes[fmt.Sprintf("bulk_%d", n)]++
+	return true
 }
